@@ -358,7 +358,6 @@ func (h *c19dMRT) checkDump(d []c19dMRTRec, apiPeers map[string]c19dAPIPeer, api
 	}
 
 	// routes: per (family, prefix) the multiset of (source, path id, attributes, originated time)
-	type ent struct{ src, canon string }
 	want := map[string][]string{}
 	for _, p := range apiPaths {
 		id := uint32(0)
@@ -530,9 +529,12 @@ func (h *c19dMRT) checkUpdates(data []byte) {
 			continue
 		}
 		// what the package's parser made of the record
-		cls := "plain-record"
+		cls := "as4-record"
+		if !ref.AS4 {
+			cls = "2-octet-as-record"
+		}
 		if ref.AddPath {
-			cls = "addpath-record"
+			cls += ":addpath"
 		}
 		if rc.Err != nil {
 			h.viol("c19d:mrt:bgp4mp:ParseBody-error:"+cls, "mrt.ParseBody fails on a BGP4MP record gobgp wrote: "+rc.Err.Error(), wit)
